@@ -152,6 +152,13 @@ func subTLD(out string, seed uint64, tier string, arg string) {
 			lintOp(strings.ToUpper(name), []string{good, strings.ToUpper(name)}, nb)
 		}
 	}
+	// common names that look like IP literals: only what net.ParseIP accepts exempts the CN from the TLD test
+	nbIP := time.Date(2024, 6, 1, 0, 0, 0, 0, time.UTC)
+	for _, cn := range []string{"192.0.2.1", "2001:db8::1", "::1", "fe80::1%eth0", "::1%www.example.notatld", "2001:db8::1%25.internal", "1.2.3.4%x", "[2001:db8::1]", "192.0.2.1:443",
+		"192.0.2.1.", "192.0.2", "192.0.2.256", "0x7f.1", "::ffff:192.0.2.1", "1.2.3.4.example.notatld", "fe80::1%", "%eth0"} {
+		lintOp(cn, []string{"ok.example.com"}, nbIP)
+		lintOp(cn, []string{"ok.example.com", "www.example.org"}, nbIP)
+	}
 	// runtime table for the Python-side comparison with the extracted literal
 	rep.Extra["runtime_tld_count"] = len(tm)
 	rep.write(filepath.Join(out, "report.json"))
